@@ -26,7 +26,7 @@ class HarnessError(Exception):
 
 class Scenario(object):
     def __init__(self, name, world_cls, cfg, menu, max_depth=None, max_states=400000, finding=None,
-                 note=""):
+                 note="", max_seconds=None):
         self.name = name
         self.world_cls = world_cls
         self.cfg = cfg
@@ -35,6 +35,7 @@ class Scenario(object):
         self.max_states = max_states
         self.finding = finding        # id of the known finding this scenario is dedicated to
         self.note = note
+        self.max_seconds = max_seconds      # safety net only: wall-clock budget, checked between BFS levels
         self._init_snap = None
         self._init_pid = None
 
@@ -77,6 +78,7 @@ class Result(object):
 
 
 _SCENARIOS = []      # filled before the pool forks; workers index into it
+_DEFAULT_BUDGET = [None]   # per-scenario wall-clock safety net (seconds), set by the runner per tier
 _POOL = None
 
 
@@ -177,6 +179,10 @@ def explore(si, seed=0, shadow_every=0, progress=None, want_samples=4):
     while frontier and (scn.max_depth is None or depth < scn.max_depth):
         if len(seen) >= scn.max_states:
             res.cap_hit = "max_states=%d reached at depth %d" % (scn.max_states, depth)
+            break
+        budget = scn.max_seconds or _DEFAULT_BUDGET[0]
+        if budget and time.time() - t0 > budget:
+            res.cap_hit = "time budget of %ds reached after completing depth %d" % (budget, depth)
             break
         rnd.shuffle(frontier)
         rnd.shuffle(pairs)
